@@ -3,7 +3,7 @@
 SIZES = [0, 0, 8, 24, 32, 33, 40, 100]
 
 
-def gen_program(r, lps=None, heavy_mem=False, ties=True, target=None, zero_ts=False):
+def gen_program(r, lps=None, heavy_mem=False, ties=True, target=None, zero_ts=False, relay=False):
     lps = lps or r.choice([1, 2, 3, 4, 5, 8, 12, 16])
     ntypes = r.range(2, 6)
     ncls = r.range(1, 3)
@@ -35,7 +35,31 @@ def gen_program(r, lps=None, heavy_mem=False, ties=True, target=None, zero_ts=Fa
                         oty = r.below(ty)      # strictly smaller type: strictly after its cause in the content order
                 outs.append((r.below(4), r.below(lps + 2), dt, oty, r.choice(sizes)))
             p["rows"].append((ty, cls, draws, mem, outs))
+    if relay:
+        relay_program(r, p, ntypes)
     return p
+
+
+def relay_program(r, p, ntypes):
+    """zero-delay relays whose content TIES with the event being processed (same timestamp, type, empty payload): weakly causal
+    models, legal for the serial runtime (C10 'timestamp ties, zero-delay events'); every event of the relay type is empty"""
+    R = r.below(ntypes)
+    p["relay_type"] = R
+    p["inits"] = [(lp, t, ty, 0 if ty == R else sz) for (lp, t, ty, sz) in p["inits"]]
+    if not any(ty == R for (_, _, ty, _) in p["inits"]):
+        p["inits"].append((r.below(p["lps"]), r.choice([0, 1, 2]), R, 0))
+    rows = []
+    for (ty, cls, draws, mem, outs) in p["rows"]:
+        outs = [(ru, a, dt, oty, 0 if oty == R else sz) for (ru, a, dt, oty, sz) in outs]
+        if ty == R:
+            hop = (3, r.range(1, max(1, p["lps"] - 1)), 0, R, 0) if r.chance(3, 4) else (r.choice([0, 1, 2]), r.below(p["lps"] + 1), 0, R, 0)
+            outs = outs[:2] + [hop]
+            if r.chance(1, 3):
+                outs.append((3, r.range(1, max(1, p["lps"] - 1)), 0, R, 0))
+            r_ = r.below(len(outs))
+            outs = outs[r_:] + outs[:r_]
+        rows.append((ty, cls, draws, mem, outs))
+    p["rows"] = rows
 
 
 def render(p):
